@@ -3,13 +3,17 @@
 From Coq Require Import ZArith List Bool Reals Floats Lia Lra.
 From Flocq Require Import Core BinarySingleNaN PrimFloat.
 From NS Require Import Base.Sx Base.NoteSeq Base.FloatBridge Gen.G01 Model.Quantize
-                       Proofs.Quantize Proofs.QuantizeFloat.
+                       Proofs.Quantize Proofs.QuantizeFloat Proofs.QuantizeFloatExt.
 Import ListNotations.
 
 (** a float time "in range": finite, |t| <= 2^40 s *)
 Definition time_ok (c : Z) : Prop := fin (fdec c) /\ Rabs (R_of (fdec c)) <= bpow radix2 40.
 (** a resolution "in range": finite, 0 <= sps <= 2^20 *)
 Definition sps_ok (sps : PrimFloat.float) : Prop := fin sps /\ (0 <= R_of sps <= bpow radix2 20)%R.
+
+(** in terms of codes alone: a code below the infinity pattern whose value is at most 2^40 in magnitude *)
+Lemma time_ok_code c : code_ok c -> (Rabs (code_val c) <= bpow radix2 40)%R -> time_ok c.
+Proof. intros H B. destruct (fdec_R c H) as [E F]. split; [exact F|]. rewrite E. exact B. Qed.
 
 Lemma prod_bound c sps : time_ok c -> sps_ok sps ->
   (Rabs (R_of (fdec c) * R_of sps) <= bpow radix2 60)%R.
